@@ -1586,7 +1586,11 @@ chkpnta(void)
 			 * and keep our fingers crossed that we
 			 * closed enough file descriptors already */
 			for (; i < nsnds; i++) {
-				rc += chkpnt1(u);
+				if (snds[i].fd >= 0) {
+					/* chkpnt1() starts afresh */
+					(void)close(snds[i].fd);
+				}
+				rc += chkpnt1(snds[i].key);
 			}
 			break;
 		}
